@@ -235,7 +235,7 @@ def make_cases(chk):
             elif not use_container:
                 op['expect'] = 'feasible'
             if use_container and g.containers:
-                cands = [v for v in g.containers if g.impl.env[v].has_liquid() and not any(g.impl.byname[s.name] in solutes for s in g.impl.env[v].contents)]
+                cands = [v for v in g.containers if g.impl.env[v].has_liquid() and not any(dsl.sid_of(g.impl, s) in solutes for s in g.impl.env[v].contents)]
                 if cands:
                     sv = rng.choice(cands)
                     op.update(op='solutionc', solventv=sv, osolv=g.fresh())
